@@ -88,6 +88,14 @@ def check_budget_and_accounting(ctx, tr: Trace, counts_returned=True, label=""):
             # this step must not have been executed if the episode limit was already reached
             ctx.check(n_done < te, label + "stops-once-the-requested-number-of-episodes-has-finished")
             n_done = n_done + E.wrap(E.z3.If(E.as_z3_bool(f), 1, 0)) if not isinstance(f, bool) else n_done + int(f)
+    # ... and it must not stop early: either the budget is exhausted or the requested episodes are finished
+    n_fin = 0
+    for f in finished_episodes(env):
+        n_fin = n_fin + (E.wrap(E.z3.If(E.as_z3_bool(f), 1, 0)) if not isinstance(f, bool) else int(f))
+    if te is not None:
+        ctx.check((env.n_steps == tr.budget) | (n_fin == te), label + "runs-until-the-budget-is-used-or-the-requested-episodes-have-finished")
+    else:
+        ctx.check(env.n_steps == tr.budget, label + "runs-until-the-budget-is-used-or-the-requested-episodes-have-finished")
     if counts_returned and tr.returned_step is not None:
         ctx.check(tr.returned_step == tr.start_step + env.n_steps, label + "reported-step-count=start+executed",
                   detail={"returned": str(tr.returned_step), "start": tr.start_step, "executed": env.n_steps})
@@ -356,3 +364,114 @@ def check_pets(ctx, tr):
 
 RUNNERS["pets"] = lambda ctx, which, K, start: (lambda tr: (check_pets(ctx, tr), tr)[1])(run_pets(ctx, which, K, start))
 EXTRA_C01.append(("pets", "pets"))
+
+
+# ------------------------------------------------------------------------------------------------ tabular learners
+def run_tabular(ctx, which, K, start=0, symbolic=()):
+    """which in {q_learning, sarsa, double_q_learning, monte_carlo, dynaq}.  Tables are real (small) arrays;
+    policies and update functions are recording stubs that return fresh tagged tables."""
+    import jax.numpy as jnp
+    mod = importlib.import_module(f"rl_blox.algorithm.{which}")
+    w = W.World()
+    env = W.RecEnv(w, discrete=True, int_obs=True)
+    env.action_space = W.gym.spaces.Discrete(16)
+    rec = W.Recorder(w, env)
+    S_, A_ = 40, 16
+    counter = {"k": 0}
+
+    def new_table(*a, **k):
+        counter["k"] += 1
+        return jnp.full((S_, A_), float(counter["k"]))
+
+    def act_stub(name, base):
+        def f(q, obs, *a, **k):
+            n = len(w.of(name)) + 1
+            act = base + n
+            w.emit(name, env.n_steps, q=q, obs=obs, action=act)
+            return act
+        return f
+    q0 = jnp.zeros((S_, A_))
+    names = dict(trange=W.trange_stub, epsilon_greedy_policy=act_stub("epsilon_greedy_policy", 0))
+    cfg = {"q0": q0}
+    kwargs = dict(total_timesteps=K, seed=1, logger=None, progress_bar=False)
+    if which in ("q_learning", "sarsa"):
+        names["_update_policy"] = rec.fn("update", ret=new_table)
+    if which == "q_learning":
+        names["greedy_policy"] = act_stub("greedy_policy", 8)
+    if which == "double_q_learning":
+        names["_dql_update"] = rec.fn("update", ret=new_table)
+        names["jax"] = W.JaxShim("rolls" in symbolic or True)
+    if which == "monte_carlo":
+        names["update"] = rec.fn("update", ret=lambda k, *a, **kw: (new_table(), new_table()))
+        names["float"] = lambda x: 0.0 if isinstance(x, (E.SymReal, E.SymInt)) else float(x)  # rewards only feed the (stubbed) update
+    if which == "dynaq":
+        names["q_learning_update"] = rec.fn("update", ret=new_table)
+        names["planning"] = rec.fn("planning", ret=lambda k, *a, **kw: a[-1])
+        names["counter_update"] = rec.fn("counter_update", ret=lambda k, c, *a: c)
+        names["model_update"] = rec.fn("model_update", ret=lambda k, m, *a: m)
+        names["float"] = W.identity_float
+        kwargs["n_planning_steps"] = 1
+    with overlay(mod, **names):
+        fn = getattr(mod, f"train_{which}")
+        if which == "double_q_learning":
+            res = fn(env, q0, jnp.zeros((S_, A_)) + 0.5, **kwargs)
+        else:
+            res = fn(env, q0, **kwargs)
+    return Trace(which, w, env, None, cfg, res, None, 0, K)
+
+
+def check_tabular(ctx, tr):
+    """The arguments of every update equal the environment log of that step; actions come from the policy on the current observation."""
+    which, env = tr.algo, tr.env
+    eg = {}
+    for (_, at, p) in tr.w.of("epsilon_greedy_policy"):
+        eg.setdefault(at, []).append(p)
+    for k, st in enumerate(env.steps):
+        cands = [p for p in eg.get(k, []) if p["action"] == st["action"]]
+        ctx.check(len(cands) == 1, "action-passed-to-the-environment-is-the-policy's-action")
+        ctx.check(len(cands) == 1 and W.tagval(cands[0]["obs"]) == W.tagval(st["obs"]), "acting-policy-is-conditioned-on-the-current-observation(reset-obs-after-episode-end)")
+    ups = tr.w.of("update")
+    if which in ("q_learning", "sarsa", "double_q_learning", "dynaq"):
+        ctx.check(len(ups) == env.n_steps, "one-update-per-executed-step")
+        for (_, at, p), st in zip(ups, env.steps):
+            a = p["args"]
+            if which == "q_learning":      # (q, obs, act, rew, nobs, next_act, gamma, terminated, lr)
+                obs, act, rew, nobs, nact, term = a[1], a[2], a[3], a[4], a[5], a[7]
+            elif which == "sarsa":         # (q, obs, act, rew, nobs, next_act, gamma, lr, terminated)
+                obs, act, rew, nobs, nact, term = a[1], a[2], a[3], a[4], a[5], a[8]
+            elif which == "double_q_learning":  # (key, q1, q2, obs, act, rew, nobs, gamma, lr, terminated)
+                obs, act, rew, nobs, nact, term = a[3], a[4], a[5], a[6], None, a[9]
+            else:                          # dynaq: (obs, act, rew, nobs, gamma, lr, q)
+                obs, act, rew, nobs, nact, term = a[0], a[1], a[2], a[3], None, None
+            ctx.check(W.tagval(obs) == W.tagval(st["obs"]), "update-uses-the-observation-the-environment-last-returned")
+            ctx.check(act == st["action"], "update-uses-the-executed-action")
+            ctx.check(rew == st["reward"], "update-uses-that-step's-reward")
+            ctx.check(W.tagval(nobs) == W.tagval(st["next_obs"]), "update-uses-that-step's-successor")
+            if term is not None:
+                ctx.check(term == st["terminated"], "update-uses-that-step's-termination-flag(not-truncation)")
+        if which == "q_learning":
+            gp = tr.w.of("greedy_policy")
+            for (_, at, p), (_, at2, g), st in zip(ups, gp, env.steps):
+                ctx.check(p["args"][5] == g["action"] and W.tagval(g["obs"]) == W.tagval(st["next_obs"]), "q-learning-bootstraps-from-the-greedy-action-at-the-successor")
+                ctx.check(g["q"] is p["args"][0], "greedy-successor-action-uses-the-table-being-updated")
+    if which == "monte_carlo":
+        # one update per finished episode, on exactly that episode's (obs, action, reward) slices
+        start = 0
+        ep = 0
+        for k, st in enumerate(env.steps):
+            done = W.b_or(st["terminated"], st["truncated"])
+            if done is True or (not isinstance(done, bool) and bool(done)):
+                ctx.check(ep < len(ups), "monte-carlo:update-at-every-episode-end")
+                a = ups[ep][2]["args"]
+                rews, obs_, acts = a[2], a[3], a[4]
+                ctx.check(len(rews) == k - start + 1, "monte-carlo:episode-slice-length")
+                for j in range(start, k + 1):
+                    ctx.check(int(obs_[j - start]) == W.tagval(env.steps[j]["obs"]) and int(acts[j - start]) == env.steps[j]["action"], "monte-carlo:episode-slice-holds-that-episode's-steps")
+                start = k + 1
+                ep += 1
+        ctx.check(len(ups) == ep, "monte-carlo:no-update-outside-episode-ends")
+
+
+RUNNERS["tabular"] = lambda ctx, which, K, start: (lambda tr: (check_tabular(ctx, tr), tr)[1])(run_tabular(ctx, which, K, start))
+for _w in ("q_learning", "sarsa", "double_q_learning", "monte_carlo", "dynaq"):
+    EXTRA_C01.append(("tabular", _w))
